@@ -78,6 +78,12 @@ pub enum Body {
         func: String,
         call_args: Vec<String>,
     },
+    /// `<Type>::<func>(args)` — re-exposed receiver-less function
+    StaticForward {
+        ty: String,
+        func: String,
+        call_args: Vec<String>,
+    },
     /// `let f = addr_of!((*self.vftable()).<slot>).read(); f(args)`
     Vftable { slot: String, call_args: Vec<String> },
     /// `self.<expr> as <ty>` — the vftable() accessor; path = field chain, last = "vftable" or "vftable()"
@@ -458,6 +464,21 @@ fn parse_body(block: &syn::Block) -> Body {
                     func: mc.method.to_string(),
                     call_args: mc.args.iter().map(toks).collect(),
                 }
+            }
+            Expr::Call(c) => {
+                // <Type>::func(args)
+                if let Expr::Path(p) = &*c.func {
+                    if let Some(q) = &p.qself {
+                        if p.path.segments.len() == 1 {
+                            return Body::StaticForward {
+                                ty: norm_ty(&q.ty),
+                                func: p.path.segments[0].ident.to_string(),
+                                call_args: call_args(c),
+                            };
+                        }
+                    }
+                }
+                other()
             }
             Expr::Cast(c) => {
                 let Some(chain) = field_chain(&c.expr) else { return other() };
